@@ -63,7 +63,9 @@ fn xs(r: &mut Rng, n: usize, dense: bool, sample: usize, randoms: usize) -> Vec<
     }
     // t = 2^j, 2^j +- 1
     let js: Vec<usize> = if dense { (0..=32 * n).collect() } else {
-        let mut v: Vec<usize> = if sample >= 8 { vec![0, 1, 31, 32, 33, 63, 64, 65, 32 * n - 1, 32 * n, 32 * n - 32, 32 * n - 33, 16 * n, 16 * n + 1] } else { vec![32 * n - 1, 32 * n] };
+        let h = 32 * n;
+        let mut v: Vec<usize> = if sample >= 8 { vec![0, 1, 31, 32, 33, 63, 64, 65, h - 1, h, h.saturating_sub(32), h.saturating_sub(33), h / 2, h / 2 + 1] } else { vec![h - 1, h] };
+        v.retain(|j| *j <= h);
         for _ in 0..sample { v.push(r.below(32 * n + 1)); }
         v.sort();
         v.dedup();
